@@ -66,7 +66,9 @@ DigitsCmp(x, y) == IF Len(x) # Len(y) THEN (IF Len(x) < Len(y) THEN 0 - 1 ELSE 1
                    ELSE IF x = y THEN 0 ELSE IF BytesLess(x, y) THEN 0 - 1 ELSE 1
 \* -1 / 0 / 1
 NumCmp(a, b) ==
-  IF ~IsBig(a) /\ ~IsBig(b) THEN
+  \* (the same number written the same way: no arithmetic, so that 24-bit mantissas over 2^27 stay within TLC's integers)
+  IF ~IsBig(a) /\ ~IsBig(b) /\ NumN(a) = NumN(b) /\ NumD(a) = NumD(b) THEN 0
+  ELSE IF ~IsBig(a) /\ ~IsBig(b) THEN
     (LET l == NumN(a) * NumD(b) r == NumN(b) * NumD(a) IN IF l < r THEN 0 - 1 ELSE IF l = r THEN 0 ELSE 1)
   ELSE IF SignOf(a) # SignOf(b) THEN (IF SignOf(a) < SignOf(b) THEN 0 - 1 ELSE 1)
   ELSE \* same sign, at least one beyond 32 bits: a fraction is smaller in magnitude than any such integer
